@@ -1,4 +1,4 @@
-//! harness family c06 (stub until the family is built)
+//! harness family c06: the file-system engine (fam/fs.rs) with the oracles of property C06 switched on
 use crate::util::*;
 
-pub fn run(_ctx: &mut Ctx) {}
+pub fn run(ctx: &mut Ctx) { super::fs::run(ctx, super::fs::Focus::C06) }
